@@ -17,8 +17,10 @@ CONSTANT Big
 VARIABLES stage, part, u, src, alias
 vars == <<stage, part, u, src, alias>>
 
-Schemes == {"https", "http", "ws", "wss", "ftp", "HTTPS", "Ws", "gopher"}
-UserInfos == IF Big THEN {"", "u", "u:p", "a.com", "u:p@x"} ELSE {"", "u:p", "a.com"}
+\* scheme characters are letters, digits, '+', '-' and '.'
+Schemes == {"https", "http", "ws", "wss", "ftp", "HTTPS", "Ws", "gopher", "chrome-extension", "web+ab", "a.b"}
+\* "@" stands for an EMPTY userinfo that is nevertheless written ('https://@a.com/'), ":@" for an empty user and password
+UserInfos == IF Big THEN {"", "u", "u:p", "a.com", "u:p@x", "@", ":@"} ELSE {"", "u:p", "a.com", "@", ":@"}
 HostsU == {"a.com", "s.a.com", "t.s.a.com", "b.com", "a.co.uk", "s.a.co.uk", "b.co.uk", "xa.com", "localhost",
            "1.2.3.4", "5.2.3.4", "a-b.com", "a.b.a.com", "A.com", "S.a.COM", "bücher.a.com", "пример.рф",
            \* IPv6 literals (the brackets are part of the host component) and fully qualified names
@@ -40,6 +42,10 @@ SrcHosts == {"a.com", "s.a.com", "b.com", "a.co.uk", "b.co.uk", "co.uk", "1.2.3.
 Aliases == IF Big THEN {"script", "document", "websocket", "xhr", "foo"} ELSE {"script", "foo"}
 
 LowerStr(s) == Str(LowerS(Chars(s)))
+\* for a scheme that is not special a backslash is an ordinary character (there it would belong to the authority):
+\* those combinations are left out of the universe
+SpecialScheme(sc) == LowerStr(sc) \in {"http", "https", "ws", "wss", "ftp", "gopher"}
+RestsFor(sc) == IF SpecialScheme(sc) THEN Rests ELSE {r \in Rests : Chars(r) = <<>> \/ Chars(r)[1] # "\\"}
 \* Tabs and line breaks inside a URL are not part of it (WHATWG URL: they are removed before parsing): the host
 \* component of 'exa<TAB>mple.com' is 'example.com'.  A spelling <<p, t>> writes the text t after the p-th
 \* character of the host.
@@ -47,7 +53,8 @@ Spellings == << <<0, "">>, <<2, "\t">>, <<1, "\n">>, <<3, "\r\n">>, <<0, "\t">>,
 HostsSpelled == {"a.com", "s.a.co.uk", "bücher.a.com", "[::1]", "A.com"}
 Spelled(h, k) == LET cs == Chars(h) p == Spellings[k][1] IN
                  Str(SubSeq(cs, 1, p)) \o Spellings[k][2] \o Str(SubSeq(cs, p + 1, Len(cs)))
-Text(x) == x.scheme \o "://" \o (IF x.userinfo = "" THEN "" ELSE x.userinfo \o "@") \o Spelled(x.host, x.spell)
+UserInfoText(ui) == IF ui = "" THEN "" ELSE IF ui = "@" THEN "@" ELSE IF ui = ":@" THEN ":@" ELSE ui \o "@"
+Text(x) == x.scheme \o "://" \o UserInfoText(x.userinfo) \o Spelled(x.host, x.spell)
            \o (IF x.port = "" THEN "" ELSE ":" \o x.port) \o x.rest
 
 IsIp(h) == (Chars(h)[1] = "[") \/ \A i \in 1..Len(Chars(h)) : Chars(h)[i] \in Digits \cup {"."}
@@ -70,7 +77,7 @@ Parts == SetToSeqC(Schemes \X Ports)
 Init == stage = "seed" /\ part \in 1..Len(Parts) /\ u = [scheme |-> "", userinfo |-> "", host |-> "", port |-> "", rest |-> "", spell |-> 1]
         /\ src = "" /\ alias = ""
 Next == /\ stage = "seed" /\ stage' = "case" /\ part' = part
-        /\ u' \in [scheme : {Parts[part][1]}, userinfo : UserInfos, host : HostsU, port : {Parts[part][2]}, rest : Rests, spell : {1}]
+        /\ u' \in [scheme : {Parts[part][1]}, userinfo : UserInfos, host : HostsU, port : {Parts[part][2]}, rest : RestsFor(Parts[part][1]), spell : {1}]
                  \cup [scheme : {Parts[part][1]}, userinfo : {"", "u:p"}, host : HostsSpelled, port : {Parts[part][2]}, rest : {"/", "/p?q=1", ""},
                        spell : 2..Len(Spellings)]
         /\ src' \in SrcHosts \cup {"", "%"}
